@@ -67,6 +67,10 @@ class WSGIWrapper:
         body = bytearray()
         while True:
             message = await receive()
+            if message["type"] == "http.disconnect":
+                # The client has gone before the body was complete, there
+                # is no request (nor anyone) to call the app for.
+                return
             body.extend(message.get("body", b""))  # type: ignore
             if len(body) > self.max_body_size:
                 await send({"type": "http.response.start", "status": 400, "headers": []})
@@ -88,23 +92,6 @@ class WSGIWrapper:
         response_started = False
         status_code: Optional[int] = None
 
-        def start_response(
-            status: str,
-            response_headers: List[Tuple[str, str]],
-            exc_info: Optional[Exception] = None,
-        ) -> None:
-            nonlocal headers, response_started, status_code
-
-            raw, _ = status.split(" ", 1)
-            status_code = int(raw)
-            headers = [
-                (name.lower().encode("latin-1"), value.encode("latin-1"))
-                for name, value in response_headers
-            ]
-            response_started = True
-
-        response_body = self.app(environ, start_response)
-
         # PEP 3333 allows start_response to be called as late as the
         # first iteration (e.g. generator apps), so check after that.
         start_sent = False
@@ -116,6 +103,35 @@ class WSGIWrapper:
                 raise RuntimeError("WSGI app did not call start_response")
             send({"type": "http.response.start", "status": status_code, "headers": headers})
             start_sent = True
+
+        def write(data: bytes) -> None:
+            # The (legacy) imperative way to produce output, what is
+            # written precedes what the returned iterable yields.
+            if not start_sent:
+                send_start()
+            send({"type": "http.response.body", "body": data, "more_body": True})
+
+        def start_response(
+            status: str,
+            response_headers: List[Tuple[str, str]],
+            exc_info: Optional[tuple] = None,
+        ) -> Callable[[bytes], None]:
+            nonlocal headers, response_started, status_code
+
+            if exc_info is not None and start_sent:
+                # Too late to replace the response, as PEP 3333 requires
+                raise exc_info[1].with_traceback(exc_info[2])
+
+            raw, _ = status.split(" ", 1)
+            status_code = int(raw)
+            headers = [
+                (name.lower().encode("latin-1"), value.encode("latin-1"))
+                for name, value in response_headers
+            ]
+            response_started = True
+            return write
+
+        response_body = self.app(environ, start_response)
 
         try:
             for output in response_body:
@@ -133,7 +149,8 @@ def _build_environ(scope: HTTPScope, body: bytes) -> dict:
     server = scope.get("server") or ("localhost", 80)
     path = scope["path"]
     script_name = scope.get("root_path", "")
-    if path.startswith(script_name):
+    if path == script_name or path.startswith(script_name + "/"):
+        # Under the root path, i.e. it is a prefix at a segment boundary
         path = path[len(script_name) :]
         path = path if path != "" else "/"
     else:
@@ -160,7 +177,7 @@ def _build_environ(scope: HTTPScope, body: bytes) -> dict:
         environ["REMOTE_ADDR"] = scope["client"][0]
 
     for raw_name, raw_value in scope.get("headers", []):
-        name = raw_name.decode("latin1")
+        name = raw_name.decode("latin1").lower()  # Raw headers keep the client's case
         if name == "content-length":
             corrected_name = "CONTENT_LENGTH"
         elif name == "content-type":
